@@ -1075,6 +1075,11 @@ static ares_status_t ares_dns_write_rr(const ares_dns_record_t *dnsrec,
     end_length = ares_buf_len(buf);
     rdlength   = end_length - pos_len - 2;
 
+    /* RDLENGTH is a 16-bit field */
+    if (rdlength > 0xFFFF) {
+      return ARES_EFORMERR;
+    }
+
     status = ares_buf_set_length(buf, pos_len);
     if (status != ARES_SUCCESS) {
       return status;
